@@ -76,12 +76,14 @@ def classify_from_stderr(cls, msg, errtail):
     return cls, msg
 
 
-def run_worker(harness, seed, frm, count, trace_dir, tag, keep=False, timeout=900):
+def run_worker(harness, seed, frm, count, trace_dir, tag, keep=False, timeout=900, cpu=None):
     """runs one worker process; returns (results, violation or None, infra_error or None)"""
     errp = os.path.join(SCRATCH, "stderr-%s-%s.txt" % (harness, tag))
     cmd = [os.path.join(BIN, harness), "--seed", str(seed), "--from", str(frm), "--count", str(count), "--trace-dir", trace_dir]
     if keep:
         cmd.append("--keep-traces")
+    if cpu is not None:
+        cmd += ["--cpu", str(cpu)]
     with open(errp, "wb") as ef:
         try:
             p = subprocess.run(cmd, stdout=subprocess.PIPE, stderr=ef, timeout=timeout)
@@ -375,7 +377,7 @@ def main():
                 return
             h, frm, cnt = job
             t0 = time.time()
-            res, viol, err = run_worker(h, seed, frm, cnt, trace_dir, "w%d" % wid)
+            res, viol, err = run_worker(h, seed, frm, cnt, trace_dir, "w%d" % wid, cpu=wid % (os.cpu_count() or 1))
             dt = time.time() - t0
             with lock:
                 s = state[h]
